@@ -26,11 +26,12 @@ func (h *merkleDamgardHasher) Sum(b []byte) []byte {
 	if _, err := h.Write(b); err != nil {
 		panic(err)
 	}
-	return h.state
+	// the digest handed out must not share storage with the running state (or the IV)
+	return append([]byte(nil), h.state...)
 }
 
 func (h *merkleDamgardHasher) Reset() {
-	h.state = h.iv
+	h.state = append([]byte(nil), h.iv...)
 }
 
 func (h *merkleDamgardHasher) Size() int {
@@ -42,11 +43,11 @@ func (h *merkleDamgardHasher) BlockSize() int {
 }
 
 func (h *merkleDamgardHasher) State() []byte {
-	return h.state
+	return append([]byte(nil), h.state...)
 }
 
 func (h *merkleDamgardHasher) SetState(state []byte) error {
-	h.state = state
+	h.state = append([]byte(nil), state...)
 	return nil
 }
 
@@ -66,8 +67,8 @@ func (h *merkleDamgardHasher) SetState(state []byte) error {
 // using a deterministic method.
 func NewMerkleDamgardHasher(f Compressor, initialState []byte) StateStorer {
 	return &merkleDamgardHasher{
-		state: initialState,
-		iv:    initialState,
+		state: append([]byte(nil), initialState...),
+		iv:    append([]byte(nil), initialState...),
 		f:     f,
 	}
 }
